@@ -543,8 +543,8 @@ def _list_writers(fn: ast.AST, is_list: T.Callable[[ast.AST], bool]) -> T.List[T
             else:
                 out.append((st, list(c.args[0].elts) if c.args and isinstance(c.args[0], ast.List) else []))
         elif isinstance(st, ast.Assign) and any(is_list(t) for t in st.targets):
-            if isinstance(st.value, (ast.List,)) and not st.value.elts:
-                continue     # initialisation with the empty list
+            if isinstance(st.value, (ast.List,)) and not st.value.elts or (isinstance(st.value, ast.Call) and norm(st.value.func) == 'list' and not st.value.args):
+                continue     # (re-)initialisation with the empty list
             out.append((st, list(st.value.elts) if isinstance(st.value, ast.List) else []))
     return out
 
@@ -1051,3 +1051,103 @@ def _self_meth(e: ast.AST) -> T.Optional[str]:
     if isinstance(e, ast.Attribute) and isinstance(e.value, ast.Name) and e.value.id in ('self', 'cls'):
         return e.attr
     return None
+
+
+# ---------------------------------------------------------------------------
+# R7: the work lists apply_changes consumes are reset before it runs again (typestate K4 + sibling agreement K8)
+def _work_lists(mod: Module) -> T.List[str]:
+    """Attributes of Rewriter that __init__ creates as empty lists and apply_changes reads."""
+    init = mod.func('Rewriter.__init__')
+    ac = mod.func('Rewriter.apply_changes')
+    created = {attr_chain(n.targets[0]).split('.', 1)[1] for n in walk_no_nested(init)  # type: ignore[union-attr]
+               if isinstance(n, ast.Assign) and len(n.targets) == 1 and (attr_chain(n.targets[0]) or '').startswith('self.')
+               and (attr_chain(n.targets[0]) or '').count('.') == 1 and isinstance(n.value, ast.List) and not n.value.elts}
+    created |= {attr_chain(n.target).split('.', 1)[1] for n in walk_no_nested(init)  # type: ignore[union-attr]
+                if isinstance(n, ast.AnnAssign) and (attr_chain(n.target) or '').startswith('self.') and (attr_chain(n.target) or '').count('.') == 1
+                and isinstance(n.value, ast.List) and not n.value.elts}
+    read = {n.attr for n in ast.walk(ac) if isinstance(n, ast.Attribute) and isinstance(n.value, ast.Name) and n.value.id == 'self' and isinstance(n.ctx, ast.Load)}
+    return sorted(created & read)
+
+
+def _reset_of(st: ast.AST, recv: str, lists: T.Iterable[str]) -> T.Optional[str]:
+    """`<recv>.<list> = []` / `= list()` / `<recv>.<list>.clear()` / `del <recv>.<list>[:]` -> list name."""
+    for a in lists:
+        chain = f'{recv}.{a}'
+        if isinstance(st, (ast.Assign, ast.AnnAssign)):
+            tg = st.targets if isinstance(st, ast.Assign) else [st.target]
+            v = st.value
+            empty = isinstance(v, ast.List) and not v.elts or (isinstance(v, ast.Call) and norm(v.func) == 'list' and not v.args)
+            if empty and any(attr_chain(t) == chain for t in tg):
+                return a
+        if isinstance(st, ast.Expr) and isinstance(st.value, ast.Call) and norm(st.value.func) == f'{chain}.clear' and not st.value.args:
+            return a
+        if isinstance(st, ast.Delete) and any(isinstance(t, ast.Subscript) and attr_chain(t.value) == chain and isinstance(t.slice, ast.Slice)
+                                              and t.slice.lower is None and t.slice.upper is None for t in st.targets):
+            return a
+    return None
+
+
+def r7(ctx: RuleCtx) -> None:
+    mod = ctx.repo.module(REWRITER)
+    lists = _work_lists(mod)
+    ctx.floor('work lists created in Rewriter.__init__ and consumed by apply_changes', len(lists), 3)
+    ctx.note('work lists: ' + ', '.join(lists))
+    # does the consumer empty its own lists on every way out?  (then nobody else has to)
+    ac = mod.func('Rewriter.apply_changes')
+    acfg = CFG(ac)
+    self_resetting = set()
+    for a in lists:
+        rs = [n for n in acfg.nodes if n.kind == 'stmt' and _reset_of(n.ast, 'self', [a])]
+        if rs and not acfg.can_reach(acfg.entry, acfg.exit_return, avoid=rs):
+            self_resetting.add(a)
+    rels = [REWRITER]
+    if ctx.thorough:
+        rels = [r for r in ctx.repo.py_files('mesonbuild') if 'apply_changes' in ctx.repo.read(r)]
+    n_calls = 0
+    for rel in rels:
+        m = ctx.repo.module(rel)
+        for qn, fn in m.funcs().items():
+            calls = [c for c in walk_no_nested(fn) if isinstance(c, ast.Call) and isinstance(c.func, ast.Attribute) and c.func.attr == 'apply_changes'
+                     and isinstance(c.func.value, ast.Name)]
+            resets_any: T.List[T.Tuple[ast.AST, str]] = []
+            if not qn.endswith('.__init__'):
+                for st in walk_no_nested(fn):
+                    chains = {c_ for n_ in ast.walk(st) if isinstance(n_, ast.Attribute) for c_ in [attr_chain(n_)] if c_ and c_.rsplit('.', 1)[-1] in lists}
+                    for ch in chains:
+                        rv = ch.rsplit('.', 1)[0]
+                        if isinstance(st, (ast.Assign, ast.AnnAssign, ast.Expr, ast.Delete)) and _reset_of(st, rv, lists):
+                            resets_any.append((st, rv))
+            if not calls and not resets_any:
+                continue
+            cfg = CFG(fn)
+            for c in calls:
+                recv = c.func.value.id  # type: ignore[attr-defined]
+                cn = cfg.node_containing(c)
+                if not cn:
+                    continue
+                n_calls += 1
+                again = [x for c2 in calls if c2.func.value.id == recv for x in cfg.node_containing(c2)]  # type: ignore[attr-defined]
+                repeats = any(cfg.can_reach(a_, b_) for a_ in cn for b_ in again)
+                if not repeats:
+                    ctx.ok(f'{qn}: `{short(c)}` runs at most once per {recv}: nothing to reset')
+                    continue
+                for a in lists:
+                    if a in self_resetting:
+                        ctx.ok(f'{qn}: apply_changes empties {a} itself')
+                        continue
+                    rs = [n for n in cfg.nodes if n.kind == 'stmt' and _reset_of(n.ast, recv, [a])]
+                    leak = any(cfg.can_reach(a_, b_, avoid=rs) for a_ in cn for b_ in again)
+                    ctx.require(not leak, f'{qn}: every way from `{short(c)}` to the next one empties {recv}.{a} ({len(rs)} reset(s))', m, qn,
+                                f'{recv}.{a} between two apply_changes()',
+                                f'`{short(c)}` can run again without {recv}.{a} having been emptied: the nodes queued by an earlier command are '
+                                + ('appended to the file again' if 'add' in a else 'spliced again at offsets of a text that has changed in between')
+                                + ' by every later command of the same invocation', c)
+            # sibling agreement: a block that empties one of the work lists of an object empties all of them
+            by_recv: T.Dict[str, T.Set[str]] = {}
+            for st, r in resets_any:
+                by_recv.setdefault(r, set()).add(T.cast(str, _reset_of(st, r, lists)))
+            for r, got in by_recv.items():
+                missing = [a for a in lists if a not in got and a not in self_resetting]
+                ctx.require(not missing, f'{qn}: empties all work lists of {r} ({", ".join(sorted(got))})', m, qn, f'work lists of {r} emptied together',
+                            f'{qn} empties {sorted(got)} of {r} but not {missing}: apply_changes consumes them together, a stale {(missing or ["?"])[0]} is applied again', resets_any[0][0])
+    ctx.floor('apply_changes call sites', n_calls, 1)
